@@ -8,14 +8,26 @@ NEAR = [b"GET / HTTP/1.1\r\nHost x\r\n\r\n", b"GET / HTTP/1.1\r\nHost:x\r\n\r\n"
         b"POST / HTTP/1.1\r\nTransfer-Encoding: chunked\r\n\r\n3;a=b\r\nabc\r\n0\r\n\r\n", b"POST / HTTP/1.1\r\nTransfer-Encoding: chunked\r\n\r\n\xb2\r\n",
         b"GET http://h:99999/ HTTP/1.1\r\n\r\n", b"GET http://h:ab/ HTTP/1.1\r\n\r\n", b"GET http://[::1/ HTTP/1.1\r\n\r\n", b"GET //%5B/ HTTP/1.1\r\n\r\n",
         b"BAD / HTTP/1.1\r\n\r\n", b"GET / HTTP/2.0\r\n\r\n", b"GET /\r\n\r\n", b"\r\n", b" \r\n", b"GET / HTTP/1.0\r\n\r\n", b"GET / HTTP/1.1\r\nConnection: close\r\n\r\n",
-        b"POST / HTTP/1.1\r\nContent-Length: 2\r\n\r\n\xff\xfe", b"POST / HTTP/1.1\r\nContent-Length: -1\r\n\r\n", b"POST / HTTP/1.1\r\nContent-Length: x\r\n\r\n",
+        b"POST / HTTP/1.1\r\nContent-Length: 2\r\n\r\n\xff\xfe",
+        b"POST / HTTP/1.1\r\nContent-Type: application/json\r\nContent-Length: 20000\r\n\r\n" + b"[" * 20000,     # RecursionError in json
+        b"POST / HTTP/1.1\r\nContent-Type: application/json\r\nContent-Length: 24000\r\n\r\n" + b"{\"a\":" * 4000, b"POST / HTTP/1.1\r\nContent-Length: -1\r\n\r\n", b"POST / HTTP/1.1\r\nContent-Length: x\r\n\r\n",
         b"GET / HTTP/1.1\r\n" + b"A: 1\r\n" * 0 + b"".join(b"H%d: v\r\n" % i for i in range(101)) + b"\r\n", b"GET /" + b"a" * 66000 + b" HTTP/1.1\r\n\r\n",
         b"GET / HTTP/1.1\r\nA: " + b"v" * 66000 + b"\r\n\r\n", b"GET / HTTP/1.1\nA: " + b"v" * 66000 + b"\n\n",
         b"POST / HTTP/1.1\r\nTransfer-Encoding: chunked\r\n\r\n1;" + b"e" * 66000 + b"\r\na\r\n0\r\n\r\n",
         b"POST / HTTP/1.1\r\nTransfer-Encoding: chunked\r\n\r\n1\r\na" + b"x" * 66000 + b"\r\n0\r\n\r\n",
         b"POST / HTTP/1.1\r\nTransfer-Encoding: chunked\r\n\r\n0\r\nT: " + b"v" * 66000 + b"\r\n\r\n",
+        # format metacharacters in every client-controlled string that ends up in an error message
+        b"GET http://example.com:99999/items/{id} HTTP/1.1\r\n\r\n", b"GET http://[::1/{0}/{} HTTP/1.1\r\n\r\n", b"GET http://h:ab/%s%(x)s HTTP/1.1\r\n\r\n",
+        b"GET / HTTP/1.1\r\nHost{0} {x}\r\n\r\n", b"GET / HTTP/1.1\r\n{}\r\n\r\n", b"{0} / HTTP/1.1\r\n\r\n", b"GET / {x}/1.1\r\n\r\n", b"GET / HTTP/{0}\r\n\r\n",
+        b"POST / HTTP/1.1\r\nTransfer-Encoding: chunked\r\n\r\n{0}\r\n", b"POST / HTTP/1.1\r\nTransfer-Encoding: chunked\r\n\r\n1\r\na{x}%s\r\n",
+        b"POST / HTTP/1.1\r\nContent-Length: {0}\r\n\r\n",
         b"GET / HTTP/1.1\r\n: v\r\n\r\n", b"GET / HTTP/1.1\r\nContent-Type: application/json; charset=\r\nContent-Length: 1\r\n\r\n{"]
-RESP_NEAR = [b"HTTP/1.1 200 OK\r\nA: " + b"v" * 66000 + b"\r\n\r\n", b"HTTP/1.1 200 " + b"r" * 66000 + b"\r\n\r\n",
+RESP_NEAR = [b"HTTP/1.1 {0} OK\r\n\r\n", b"{x}/1.1 200 OK\r\n\r\n", b"HTTP/{} 200 OK\r\n\r\n", b"HTTP/1.1 200 OK\r\nX{0}%s\r\n\r\n",
+             b"HTTP/1.1 200 OK\r\nTransfer-Encoding: chunked\r\n\r\n{0}\r\n", b"HTTP/1.1 200 OK\r\nTransfer-Encoding: chunked\r\n\r\n1\r\na{x}\r\n",
+             b"HTTP/1.1 302 F\r\nLocation: http://h:99999/{id}\r\nContent-Length: 0\r\n\r\n", b"HTTP/1.1 302 F\r\nLocation: http://[::1/{0}{}%s\r\nContent-Length: 0\r\n\r\n",
+             b"HTTP/1.1 302 F\r\nLocation: /rel/{x}\r\nContent-Length: 0\r\n\r\n", b"HTTP/1.1 302 F\r\nLocation: http://{0}.invalid/\r\nContent-Length: 0\r\n\r\n",
+             b"HTTP/1.1 200 OK\r\nContent-Type: application/json\r\nContent-Length: 20000\r\n\r\n" + b"[" * 20000,
+             b"HTTP/1.1 200 OK\r\nA: " + b"v" * 66000 + b"\r\n\r\n", b"HTTP/1.1 200 " + b"r" * 66000 + b"\r\n\r\n",
              b"HTTP/1.1 200 OK\r\nContent-Type: text/event-stream\r\n\r\ndata: " + b"d" * 66000 + b"\n\n",
              b"HTTP/1.1 200 OK\r\nContent-Type: text/event-stream\r\nTransfer-Encoding: chunked\r\n\r\n10400\r\ndata: " + b"d" * 66554 + b"\n\n\r\n0\r\n\r\n",
              b"HTTP/1.1 302 Found\r\nContent-Length: 0\r\n\r\n", b"HTTP/1.1 302 Found\r\nLocation: http://h:999999/\r\nContent-Length: 0\r\n\r\n",
@@ -95,6 +107,10 @@ class C16(core.Check):
         for ident in ("7", "\u20ac", "\u65e5\u672c", "\U0001f600", "\xff", "a b", "\x00"):    # Last-Event-ID on reconnect
             cs.append(("clir", sse + b"id: " + ident.encode("utf-8") + b"\ndata: x\n\n", ()))
         cs.append(("clir", b"HTTP/1.1 200 OK\r\nContent-Length: 2\r\n\r\nhi", ()))
+        long_ev = sse + b"data: " + b"d" * 66000 + b"\n\n"
+        for nxt in (b"HTTP/1.1 200 OK\r\nContent-Length: 2\r\n\r\nhi", b"HTTP/1.1 200 OK\r\n\r\nrest", b"HTTP/1.1 200 OK\r\nTransfer-Encoding: chunked\r\n\r\n2\r\nhi\r\n0\r\n\r\n"):
+            cs.append(("cli", long_ev + nxt, (len(long_ev),), True, "http"))     # a failed event stream, then a response without Content-Type
+            cs.append(("clir", long_ev + nxt, (len(long_ev),)))
         for digits in (308, 309, 400, 4300, 4301):      # retry too large for a float on reconnect
             cs.append(("clir", sse + b"retry: " + b"9" * digits + b"\nid: 1\ndata: x\n\n", ()))
         for host in (b"gone.invalid", b"nxdomain.example"):      # Location host that does not resolve
